@@ -1,7 +1,7 @@
 """C14 errors through the API: B1 wrap discipline, B2 no unwinding from entry points without an error parameter,
 Y1 scanner completeness, K3 CLI handlers."""
 import r_api, r_lex, r_cli, effects
-from common import apply, maybe_mutants
+from common import apply, maybe_mutants, control
 
 
 def run(prog, rep, tier):
@@ -35,4 +35,6 @@ def run(prog, rep, tier):
           ([i for i in q[0] if i[0].startswith(("Q1ii", "Q1iii"))], [f for f in q[1] if f["key"].startswith(("Q1ii", "Q1iii"))]), 2)
     import r_api as _ra
     apply(rep, "B6", "the error slot is output-only: *out_err is assigned, never read", _ra.b6(prog), 3)
+    apply(rep, "B7", "the result of a dynamic downcast is dereferenced only where it was tested for null (null-path reachability on the CFG; assert is not a test)", r_api.b7(prog), 0)
+    control(rep, "B7", r_api.b7, ["B7:verif_control_b7::unchecked:d"])
     maybe_mutants("C14", rep, tier)
